@@ -76,7 +76,11 @@ func RunC11(run *vk.Run) {
 			}
 			h.marks = append(h.marks, len(h.writes))
 			h.writes = append(h.writes, t.Writes...)
-			h.events = append(h.events, cmdEvents("rotate", false, t, nil, false)...)
+			sov := 0
+			if r == nrot {
+				sov = 9
+			}
+			h.events = append(h.events, cmdEventsSov("rotate", false, sov, t, nil, false)...)
 		}
 		mu.Lock()
 		orders[strings.Join(ord, " < ")]++
